@@ -10,9 +10,9 @@ CHECKS = {
         technique="Coq proof (induction over the program, unitarity of embeddings over an abstract *-ring) + model/implementation correspondence",
         ref="6 C01"),
     "C02": dict(
-        text="Coq theorems for all circuits/mode numbers: user-mode numbering = rank among non-ancilla modes (never an ancilla, order preserving), add accepted iff it fits into the non-ancilla modes (else ModeRangeError), later primitives act only on non-ancilla modes and are the identity elsewhere. The matrix-level wiring statement is NOT proved in Coq: it is decided per run by the correspondence between the executable model of Circuit.add and /repo on random circuit trees (depth<=3, heralds in any order, in!=out herald modes, ancillas inside spans) and by an independent numpy wiring reference (U_R = E.iota(U_P) for some ancilla placement) applied to every accepted add.",
-        note="Coq kernel + vm_compute; theorems closed under the global context; hand-written model of Circuit.add/_map_mode/_add_empty_mode/circuit_utils; wiring theorem missing (partial): correspondence + oracle carry it.",
-        technique="Coq proof (fold invariants over the ancilla list) + model/implementation correspondence + independent wiring oracle",
+        text="Coq theorems for all circuits/mode numbers (closed under the global context, over an abstract *-ring): user-mode numbering = rank among non-ancilla modes (never an ancilla, order preserving); add accepted iff it fits into the non-ancilla modes (else ModeRangeError); later primitives act only on non-ancilla modes. MATRIX-LEVEL WIRING (C02_add_wiring, fully general: lossy parent and sub-circuit, parent ancillas inside the span, herald input mode != output mode, any declaration order, grouped or not): after every accepted add the compiled matrix of the result is E . iota(U_P), with U_P transported along an order-preserving injection, the sub-circuit's matrix transported along the wiring maps (j-th open mode -> j-th visible mode from m, heralds -> fresh private ancillas carrying the herald photon number at input and output), identity elsewhere, loss modes of P then S appended; the invariants are re-established so the theorem applies at any nesting depth. AMPLITUDES (C02_add_amplitudes, via a Cauchy-Binet theorem for permanents): the transition amplitudes of the result are the sum over intermediate Fock states of the parent's own amplitudes times the sub-circuit's own amplitudes under this wiring, parent ancillas and new ancillas passing through untouched, heralds of the result restrict to the heralds of the parts. Supporting layers: compile commutes with mode insertion (aem), with shifting, swap completion is an order-preserving permutation, amplitude transport along injections. Tied to /repo by the correspondence between the executable model of Circuit.add and the implementation on random circuit trees and by an independent numpy wiring reference.",
+        note="Coq kernel + vm_compute; theorems closed under the global context; hand-written model of Circuit.add/_map_mode/_add_empty_mode/circuit_utils tied to the code by the correspondence run; C02_add_amplitudes_real instantiates the amplitude theorem at the reals (stdlib Reals axioms).",
+        technique="Coq proof (matrix transport along injections, fold invariants over the ancilla list, induction over specs) + model/implementation correspondence + independent wiring oracle",
         ref="6 C02"),
     "C03": dict(
         text="Coq theorems for every matrix/circuit, herald dictionaries, loss-mode count and Fock states: every accepted simulate request returns, per input/output pair, the permanent of the photon-indexed sub-matrix of U_full (heralds inserted, vacuum on loss modes) with the product of occupation factorials (amplitude = permanent/sqrt(factor), no square root computed in the model); the executable Laplace permanent is the sum over permutations; wrong length / negative occupation / photon-number mismatch are rejected with nothing computed; outputs=None enumerates the Fock basis exactly; Fock-space unitarity (sum over the basis of |amp|^2 = 1 for every unitary, every mode count and photon number, via a Cauchy-Binet theorem for permanents). Tied to /repo by a correspondence run on random circuit trees x Fock states and an independent direct-expansion permanent oracle.",
